@@ -72,6 +72,12 @@ pub fn pflags() -> impl Strategy<Value = i32> {
         // the O_TMPFILE bit without O_DIRECTORY: the kernel rejects it, but a trailing
         // '/' makes the library add O_DIRECTORY, which completes O_TMPFILE
         1 => Just(libc::O_RDWR | (libc::O_TMPFILE & !libc::O_DIRECTORY)),
+        // creation flags together with O_PATH: the kernel would ignore them, the API refuses them
+        1 => Just(libc::O_PATH | libc::O_CREAT),
+        1 => Just(libc::O_PATH | libc::O_EXCL),
+        1 => Just(libc::O_PATH | libc::O_TMPFILE),
+        1 => Just(libc::O_PATH | libc::O_CREAT | libc::O_EXCL | libc::O_NOFOLLOW),
+        1 => Just(libc::O_PATH | (libc::O_TMPFILE & !libc::O_DIRECTORY)),
     ]
 }
 
